@@ -170,21 +170,54 @@ def check_labels(case):
 # ---------------------------------------------------------------------------------------------
 # stack / unstack
 
+STACK_KINDS = ('int64', 'float64', '<U1', '<U6', 'float32', 'bool', 'int8', 'M8[D]', 'M8[m]')
+
+
+def _stack_col(kind, vals):
+    """A column of the given dtype whose cells are exactly representable only in that dtype's width."""
+    if kind == '<U1':
+        return np.array(['abcdefghij'[v % 10] for v in vals], dtype='<U1')
+    if kind == '<U6':
+        return np.array(['w%05d' % (v % 100000) for v in vals], dtype='<U6')
+    if kind == 'float64':
+        return np.array([v + 0.1 for v in vals], dtype=np.float64)
+    if kind == 'float32':
+        return np.array([v + 0.5 for v in vals], dtype=np.float32)
+    if kind == 'bool':
+        return np.array([v % 2 == 0 for v in vals], dtype=bool)
+    if kind == 'int8':
+        return np.array([v % 100 for v in vals], dtype=np.int8)
+    if kind == 'M8[D]':
+        return np.array([np.datetime64(18000 + v, 'D') for v in vals], dtype='M8[D]')
+    if kind == 'M8[m]':
+        return np.array([np.datetime64(18000 * 1440 + 61 * v + 7, 'm') for v in vals], dtype='M8[m]')
+    return np.array([v * 100003 for v in vals], dtype=np.int64)
+
+
 @st.composite
 def stack_cases(draw):
-    n = draw(st.integers(1, 4))
+    n = draw(st.sampled_from([2, 3, 1, 4]))
     a = draw(st.lists(st.sampled_from(['x', 'y', 'z']), min_size=1, max_size=3, unique=True))
     b = draw(st.lists(st.integers(0, 3), min_size=1, max_size=3, unique=True))
     import itertools
     cols = list(itertools.product(a, b))
-    kind = draw(st.sampled_from(['int64', 'float64']))
-    data = draw(st.lists(st.integers(-20, 20), min_size=n * len(cols), max_size=n * len(cols)))
-    return {'n': n, 'cols': cols, 'data': np.array(data, dtype=kind).reshape(n, len(cols)), 'index': draw(gen.flat_labels(n, draw(st.sampled_from(['int', 'str']))))}
+    # one dtype for all columns half of the time, otherwise a dtype per column (narrow before wide within a kind too)
+    if draw(st.booleans()):
+        kinds = [draw(st.sampled_from(['int64', 'float64']))] * len(cols)
+    else:
+        fam = draw(st.sampled_from([('<U1', '<U6'), ('float32', 'float64'), ('int8', 'int64'), ('M8[D]', 'M8[m]'), STACK_KINDS]))
+        kinds = [draw(st.sampled_from(fam)) for _ in cols]
+    data = draw(st.lists(st.integers(0, 40), min_size=n * len(cols), max_size=n * len(cols)))
+    return {'n': n, 'cols': cols, 'kinds': kinds, 'data': np.array(data, dtype=np.int64).reshape(n, len(cols)),
+            'index': draw(gen.flat_labels(n, draw(st.sampled_from(['int', 'str']))))}
 
 
 def check_stack(case):
-    n, cols, data = case['n'], case['cols'], case['data']
-    f = sf.Frame(gen.freeze(data), index=case['index'], columns=sf.IndexHierarchy.from_labels(cols))
+    n, cols = case['n'], case['cols']
+    kinds = case.get('kinds') or [str(case['data'].dtype)] * len(cols)
+    arrays = [_stack_col(k, case['data'][:, j].tolist()) if 'kinds' in case else case['data'][:, j] for j, k in enumerate(kinds)]
+    data = arrays
+    f = sf.Frame.from_items(zip(cols, [gen.freeze(a) for a in arrays]), index=case['index'], columns_constructor=sf.IndexHierarchy.from_labels)
     st_ = lib(lambda: f.pivot_stack(1))
     if isinstance(st_, Raised):
         raise Failure('raised:%s' % st_.cls, 'pivot_stack raised %r' % st_.exc, st_.where)
@@ -200,7 +233,7 @@ def check_stack(case):
     want = {}
     for i, r in enumerate(case['index']):
         for j, (a, b) in enumerate(cols):
-            want[(_hk(r), _hk(a), _hk(b))] = data[i, j].item()
+            want[(_hk(r), _hk(a), _hk(b))] = arr_list(data[j])[i]
     if set(cells) != set(want) or not all(eq(cells[k], want[k]) for k in want):
         raise Failure('stack', 'pivot_stack cells %s expected %s' % (short(sorted(cells.items(), key=repr), 300), short(sorted(want.items(), key=repr), 300)))
     un = lib(lambda: st_.pivot_unstack(1))
@@ -216,7 +249,7 @@ def check_stack(case):
                 got[(_hk(r), _hk(c[0]), _hk(c[1]))] = v
     if set(got) != set(want) or not all(eq(got[k], want[k]) for k in want):
         raise Failure('unstack', 'stack then unstack: cells %s expected %s' % (short(sorted(got.items(), key=repr), 300), short(sorted(want.items(), key=repr), 300)))
-    return {'nt': n >= 2 and len(cols) >= 2, 'cls': ['stack']}
+    return {'nt': n >= 2 and len(cols) >= 2, 'cls': ['stack', 'stack-dtypes:%d' % len(set(kinds))]}
 
 
 # ---------------------------------------------------------------------------------------------
